@@ -20,8 +20,19 @@ def f32(xs):
 
 
 class Builder:
-    def __init__(self, mesh):
+    def __init__(self, mesh, numform='py'):
         self.m = mesh
+        self.nf = numform
+
+    def N(self, v, as_float=False):
+        """the Python form of a number handed to the API: a float, or a NumPy scalar"""
+        if v is None:
+            return None
+        if self.nf == 'f32' and not as_float:
+            return numpy.float32(v)
+        if self.nf in ('f32', 'f64'):
+            return numpy.float64(v)
+        return float(v)
 
     # ---- library objects
     def mk_source(self, s):
@@ -67,9 +78,9 @@ class Builder:
         if v is None:
             return None
         if v[0] == 'color':
-            return tuple(v[1])
+            return tuple(self.N(x) for x in v[1])
         if v[0] == 'float':
-            return float(v[1])
+            return self.N(v[1], as_float=True)
         return material.Map(samplers[v[1]], v[2])
 
     def mk_effect(self, r):
@@ -91,7 +102,11 @@ class Builder:
 
     def mk_light(self, r):
         k = r['kind']
-        c = tuple(r['color'])
+        c = tuple(self.N(x) for x in r['color'])
+        r = dict(r)
+        for a in ('catt', 'latt', 'qatt', 'zfar', 'fang', 'fexp'):
+            if r.get(a) is not None:
+                r[a] = self.N(r[a])
         if k == 'ambient':
             return light.AmbientLight(r['id'], c)
         if k == 'directional':
@@ -101,6 +116,10 @@ class Builder:
         return light.SpotLight(r['id'], c, r.get('catt'), r.get('latt'), r.get('qatt'), r.get('fang'), r.get('fexp'))
 
     def mk_camera(self, r):
+        r = dict(r)
+        for a in ('znear', 'zfar', 'xfov', 'yfov', 'aspect', 'xmag', 'ymag'):
+            if r.get(a) is not None:
+                r[a] = self.N(r[a])
         if r['kind'] == 'perspective':
             return camera.PerspectiveCamera(r['id'], r['znear'], r['zfar'], xfov=r.get('xfov'), yfov=r.get('yfov'),
                                             aspect_ratio=r.get('aspect'))
@@ -111,11 +130,11 @@ class Builder:
     def mk_transform(self, t):
         k = t[0]
         if k == 'translate':
-            return scene.TranslateTransform(*t[1:4])
+            return scene.TranslateTransform(*[self.N(x) for x in t[1:4]])
         if k == 'rotate':
-            return scene.RotateTransform(*t[1:5])
+            return scene.RotateTransform(*[self.N(x) for x in t[1:5]])
         if k == 'scale':
-            return scene.ScaleTransform(*t[1:4])
+            return scene.ScaleTransform(*[self.N(x) for x in t[1:4]])
         if k == 'matrix':
             return scene.MatrixTransform(f32(t[1]))
         if k == 'lookat':
@@ -308,7 +327,19 @@ def apply_op(b, op, nodes_by_id, docs):
                         if inp[4] is s and p.index is not None and p.index.size:
                             need = max(need, int(p.index.reshape(-1, p.nindices)[:, inp[0]].max()) + 1)
             rows = max(rows, need)
-            s.data = numpy.resize(s.data.reshape(-1), rows * nc).reshape(-1, nc).astype(numpy.float32)
+            arr = numpy.resize(s.data.reshape(-1), rows * nc).astype(numpy.float32)
+            form = op[4] if len(op) > 4 else 'shaped'
+            if form == 'flat':
+                s.data = arr                      # unshaped, as the constructor accepts it
+            elif form == 'wide':
+                s.data = arr.reshape(1, -1)       # a 2-D array of another width
+            else:
+                s.data = arr.reshape(-1, nc)
+            if len(op) > 5 and op[5]:
+                # the components tuple replaced by one of another arity (data sized to fit)
+                newc = tuple(op[5])
+                s.components = newc
+                s.data = numpy.resize(arr, rows * len(newc)).astype(numpy.float32)
     elif k == 'add_source':
         gs = [g for g in m.geometries]
         if gs:
@@ -418,13 +449,13 @@ def apply_op(b, op, nodes_by_id, docs):
             lg = m.lights[op[1] % len(m.lights)]
             for a, v in op[2].items():
                 if hasattr(lg, a):
-                    setattr(lg, a, tuple(v) if isinstance(v, list) else v)
+                    setattr(lg, a, tuple(b.N(x) for x in v) if isinstance(v, list) else b.N(v))
     elif k == 'camera_set':
         if len(m.cameras):
             c = m.cameras[op[1] % len(m.cameras)]
             for a, v in op[2].items():
                 if hasattr(c, a):
-                    setattr(c, a, v)
+                    setattr(c, a, b.N(v))
     elif k == 'asset':
         b.set_asset(op[1])
     elif k == 'contributor_set':
@@ -608,7 +639,7 @@ def run_recipe(r):
             m = collada.Collada(validate_output=True)
         else:
             m = collada.Collada(io.BytesIO(base64.b64decode(r['base'])), validate_output=True)
-        b = Builder(m)
+        b = Builder(m, r.get('numform', 'py'))
         nodes_by_id = {}
         for n in all_nodes(m):
             if n.id:
